@@ -647,3 +647,72 @@ def _flow2():
     out += ["/-- public accessors that assign an attribute (e.g. `.name`) of an array taken directly from the result container -/",
             f"def accessorsWritingStoredArrays : List String := [{', '.join(lean_str(x) for x in offenders)}]"]
     return "\n".join(out) + "\n"
+
+
+@target("flowFacts3", "Facts", ["C02", "C03", "C04", "C05", "C07", "C09", "C10", "C11", "C17"])
+def _flow3():
+    out = []
+    # -- MultiIndexConverter: which record each way back reads
+    path = "preprocessing/multi_index_converter.py"
+    src, tree = load(path)
+    refs = []
+    for meth in ("inverse_transform_scores", "inverse_transform_scores_unseen", "inverse_transform_data", "inverse_transform_components"):
+        fn = find_func(tree, "MultiIndexConverter." + meth)
+        rets = [ast.unparse(n.value) for n in ast.walk(fn) if isinstance(n, ast.Return) and n.value is not None]
+        refs.append((meth, rets[0] if len(rets) == 1 else "<ambiguous>"))
+    out += [f"/-- {header(path, 'MultiIndexConverter', src, find_func(tree, 'MultiIndexConverter'))}: the record (fit / transform) each inverse reads -/",
+            f"def multiIndexInverseReferences : List (String × String) := {lean_pairs(refs)}"]
+    # -- cross-set base: order of the fit pipeline, no alignment of the two score arrays in inverse_transform, writes of transform
+    path = "cross/base_model_cross_set.py"
+    src, tree = load(path)
+    fit = find_func(tree, "BaseModelCrossSet.fit")
+    steps = []
+    for n in ast.walk(fit):
+        if isinstance(n, ast.Call):
+            f = ast.unparse(n.func)
+            for key, tag in (("self.preprocessor1.fit_transform", "preprocess"), ("self._check_dropped_samples_match", "check-samples"), ("self.pca1.fit_transform", "pca"),
+                             ("self._augment_data", "augment"), ("self.whitener1.fit_transform", "whiten"), ("self._fit_algorithm", "algorithm")):
+                if f == key:
+                    steps.append((n.lineno, tag))
+    out += [f"/-- {header(path, 'BaseModelCrossSet.fit', src, fit)}: order of the stages (the Hilbert augmentation precedes the whitening) -/",
+            f"def crossFitStages : List String := [{', '.join(lean_str(t) for _, t in sorted(steps))}]"]
+    inv = find_func(tree, "BaseModelCrossSet.inverse_transform")
+    aligns = [ast.unparse(c)[:80] for c in ast.walk(inv) if isinstance(c, ast.Call) and ast.unparse(c.func) in ("xr.align", "xr.broadcast", "xr.merge")]
+    out += ["/-- calls inside `BaseModelCrossSet.inverse_transform` that would pair the two score arrays sample by sample -/",
+            f"def crossInverseAlignCalls : List String := [{', '.join(lean_str(x) for x in aligns)}]"]
+    # -- objects used by transform must not be written by it (no caches surviving a refit)
+    for path, qual, nm in (("cross/cpcca_rotator.py", "CPCCARotator.transform", "cpccaRotatorTransformWrites"),
+                           ("single/eof_rotator.py", "EOFRotator._transform_algorithm", "eofRotatorTransformWrites"),
+                           ("cross/base_model_cross_set.py", "BaseModelCrossSet.transform", "crossTransformWrites"),
+                           ("single/base_model_single_set.py", "BaseModelSingleSet.transform", "singleTransformWrites")):
+        src, tree = load(path)
+        fn = find_func(tree, qual)
+        out += [f"/-- {header(path, qual, src, fn)}: attributes of the object assigned during transform -/",
+                f"def {nm} : List String := [{', '.join(lean_str(x) for x in _self_writes(fn))}]"]
+    # -- PCA: "all" resolves to the full rank bound
+    src, tree = load("preprocessing/pca.py")
+    fn = find_func(tree, "PCA._get_n_modes")
+    rets = [ast.unparse(n.value) for n in ast.walk(fn) if isinstance(n, ast.Return)]
+    out += [f"/-- {header('preprocessing/pca.py', 'PCA._get_n_modes', src, fn)}: return values (`'all'` first) -/",
+            f"def pcaAllModesResolution : List String := [{', '.join(lean_str(x) for x in rets)}]"]
+    # -- CPCCARotator: the order of the rotated modes comes from the squared covariance
+    src, tree = load("cross/cpcca_rotator.py")
+    fn = find_func(tree, "CPCCARotator._fit_algorithm")
+    sym = Sym(fn)
+    idx = [ast.unparse(n.value) for n in ast.walk(fn) if isinstance(n, ast.Assign) and ast.unparse(n.targets[0]) == "idx_modes_sorted"]
+    sq = ast.unparse(sym.defs.get("squared_covariance", ast.Name("?")))
+    ec = ast.unparse(sym.defs.get("explained_covariance", ast.Name("?")))
+    out += [f"/-- {header('cross/cpcca_rotator.py', 'CPCCARotator._fit_algorithm', src, fn)}: sort key of the rotated modes -/",
+            f"def cpccaRotatorSortKey : List String := [{', '.join(lean_str(x) for x in idx + [sq, ec])}]"]
+    # -- CPCCA inverse: components picked by the scores' mode labels
+    src, tree = load("cross/cpcca.py")
+    fn = find_func(tree, "CPCCA._inverse_transform_algorithm")
+    comps = sorted(ast.unparse(n.value) for n in ast.walk(fn) if isinstance(n, ast.Assign) and ast.unparse(n.targets[0]) in ("comps1", "comps2"))
+    out += [f"/-- {header('cross/cpcca.py', 'CPCCA._inverse_transform_algorithm', src, fn)}: how the components are picked -/",
+            f"def cpccaInverseCompsExpr : List String := [{', '.join(lean_str(x) for x in comps)}]"]
+    # -- Stacker: every squeezed non-feature dimension is restored for Dataset output
+    src, tree = load("preprocessing/stacker.py")
+    fn = find_func(tree, "Stacker._restore_squeezed_dims")
+    out += [f"/-- {header('preprocessing/stacker.py', 'Stacker._restore_squeezed_dims', src, fn)}: body -/",
+            f"def stackerRestoreSqueezedBody : List String := [{', '.join(lean_str(x) for x in _stmts(fn))}]"]
+    return "\n".join(out) + "\n"
